@@ -10,10 +10,11 @@ import io
 import itertools
 import logging
 import os
+import re
 import subprocess
 from pathlib import Path
 
-from . import common
+from . import common, c05_ref
 from .common import Check, enc
 
 ALPHA = ["a", " ", "/", "*", '"', "'", "\\", "\n", "#"]
@@ -77,7 +78,7 @@ def splice(rng, s, p):
     return "".join(out)
 
 
-def gen_text(rng, max_lines=40):
+def gen_text(rng, max_lines=40, directives=True):
     lines = []
     depth = 0
     n = rng.randint(1, max_lines)
@@ -86,7 +87,7 @@ def gen_text(rng, max_lines=40):
         if r < 0.12:
             lines.append(rng.choice(["", " ", "\t", "  "]))
             continue
-        if r < 0.27:
+        if r < 0.27 and directives:
             d = rng.choice(DIRECTIVES)
             r2 = rng.random()
             if r2 < 0.15:
@@ -202,7 +203,7 @@ def run_parse_file(text, path="/nonexistent/c05.cpp"):
 class C05(Check):
     prop_id = "C05"
     rule = ("texts: corpus (defect witnesses, tests/comments fixture); every newline-terminated text of length <= 6 "
-            "(quick) / <= 8 (thorough) over {a,space,/,*,\",',\\,newline,#}; token-level random texts (identifiers, "
+            "(quick) / <= 7 (thorough) over {a,space,/,*,\",',\\,newline,#}; token-level random texts (identifiers, "
             "operators, string/char literals holding comment markers and escapes, // and multi-line /* */ comments "
             "holding quotes, directives, blank lines, backslash-newline spliced in at random positions) up to 40 "
             "lines; malformed stream (random characters, mutated texts).  A case is non-trivial if it is well-formed, "
@@ -219,13 +220,15 @@ class C05(Check):
         _setup()
         self._flags = {}
         self._exc = {}
+        self._ref_n = 0
+        self._ref_bad = []
         self.stats = {"input_distribution": {}}
 
     # ---- cases
     def generate(self):
         quick = self.tier == "quick"
         out = []
-        ex = list(exhaustive(6 if quick else 8))
+        ex = list(exhaustive(6 if quick else 7))
         out += ex
         n_rand = 2500 if quick else 60000
         n_mal = 1500 if quick else 30000
@@ -285,6 +288,11 @@ class C05(Check):
             return ["ill-formed"]
         logical, nodes, wf, c20, c22 = sp
         self._flags[case] = (bool(wf), bool(c20), bool(c22))
+        # cross-check the Coq specification against the independent look-ahead reference (c05_ref)
+        ref = c05_ref.scan(case)
+        self._ref_n += 1
+        if ref is None or ref["wf"] != bool(wf) or (wf and ref["logical"] != [[ls, d] for ls, d in logical]):
+            self._ref_bad.append(case)
         if case in self._exc:
             return [[[ls, d] for ls, d in logical], "EXC", "EXC"]
         return [[[ls, d] for ls, d in logical], [[k, ls] for k, ls in nodes],
@@ -323,8 +331,50 @@ class C05(Check):
         return "".join(common.shrink_list(list(case), lambda cs: still_fails("".join(cs))))
 
     # ---- framework self tests
+    def gcc_oracle(self, n):
+        """S's reference (c05_ref) against gcc -E -P: diagnostics <-> wf, surviving text after comment removal."""
+        import shutil as _sh
+        res = {"cases": 0, "gcc_silent": 0, "compared_text": 0, "disagreements": []}
+        if not _sh.which("gcc"):
+            res["skipped"] = "gcc not found"
+            return res
+        rng = self.rng
+        for i in range(n):
+            t = (gen_text(rng, 10, directives=False) if i % 4 else gen_malformed(rng)).replace("#", "+").replace("?", "a")
+            if any(ord(ch) > 126 or (ord(ch) < 32 and ch not in "\n\t") for ch in t):
+                continue
+            ref = c05_ref.scan(t)
+            if ref is None:
+                continue
+            if re.search(r"\\[ \t]+(\n|$)", t):
+                continue          # gcc extension: backslash, blanks, newline also splices (not ISO C)
+            p = subprocess.run(["gcc", "-E", "-P", "-undef", "-nostdinc", "-x", "c", "-"], input=t, capture_output=True,
+                               text=True, timeout=30)
+            res["cases"] += 1
+            silent = p.returncode == 0 and not p.stderr.strip()
+            if silent:
+                res["gcc_silent"] += 1
+            stray = "\\" in c05_ref.strip_ws(ref["surviving"]) and not ref["wf"]
+            if ref["wf"] and not silent and t.endswith("\n"):
+                res["disagreements"].append(["ref-wf-but-gcc-diagnoses", t, p.stderr[:200]])
+            elif silent and not ref["wf"] and not stray:
+                res["disagreements"].append(["gcc-silent-but-ref-ill-formed", t])
+            if silent and ref["wf"]:
+                res["compared_text"] += 1
+                if c05_ref.strip_ws(p.stdout) != c05_ref.strip_ws(ref["surviving"]):
+                    res["disagreements"].append(["surviving-text", t, p.stdout, ref["surviving"]])
+        return res
+
     def self_tests(self):
         problems = []
+        if self._ref_bad:
+            problems.append(f"Coq specification and independent reference disagree on {len(self._ref_bad)} of "
+                            f"{self._ref_n} cases, first: {self._ref_bad[0]!r}")
+        g = self.gcc_oracle(300 if self.tier == "quick" else 4000)
+        self.stats["spec_oracle_gcc"] = {k: (v if k != "disagreements" else len(v)) for k, v in g.items()}
+        self.stats["spec_vs_reference"] = {"cases": self._ref_n, "disagreements": len(self._ref_bad)}
+        if g["disagreements"]:
+            problems.append(f"reference vs gcc -E: {len(g['disagreements'])} disagreements, first: {g['disagreements'][0]!r}")
         # a sample through real files and the real open(): must agree with the StringIO route
         d = common.scratch() / "c05files"
         d.mkdir(exist_ok=True)
@@ -342,6 +392,8 @@ class C05(Check):
                 real = [nodes, tree.root.num_lines, tree.root.total_sloc]
             except RuntimeError:
                 real = "Err"
+            except Exception as e:  # noqa
+                real = ["EXC", type(e).__name__]
             if real != via_io:
                 problems.append(f"real file and StringIO routes disagree on {t!r}")
                 break
